@@ -106,6 +106,8 @@ func c15apiMix(rep *vh.Report, seed uint64, idx int) {
 	}
 	// 8 goroutines: all six Write* flavours; one message value shared by all of them (the API only reads it)
 	shared := &MessageVfUid{Uid: 0x5A5A, Kind: 9}
+	// an already encoded message with a zero-padded payload, shared by every writer and every channel
+	sharedRaw := &message.MessageRaw{ID: 5000, Payload: []byte{1, 2, 3, 4, 5, 6, 7, 8, 9, 0, 0, 0}}
 	for g := 0; g < 8; g++ {
 		wg.Add(1)
 		gr := r.Fork()
@@ -120,6 +122,8 @@ func c15apiMix(rep *vh.Report, seed uint64, idx int) {
 				var m message.Message = shared
 				if i%2 == 0 {
 					m = &MessageVfUid{Uid: uint64(g)<<32 | uint64(i)}
+				} else if i%7 == 1 {
+					m = sharedRaw
 				}
 				// own frame objects: v2 and v1, decoded messages
 				var fr frame.Frame = &frame.V2Frame{SystemID: byte(g + 1), ComponentID: 1, SequenceNumber: byte(i), Message: &MessageVfUid{Uid: uint64(i)}}
